@@ -106,15 +106,17 @@ func (e *expr) refsB() bool {
 	return e.A.refsB() || e.B.refsB()
 }
 
-// enumerate returns every expression of depth <= 2 (ordered operands, repetitions included).
-// With atomicOperand set, a depth-2 binary node must have at least one atomic operand (quick tier).
-func enumerate(atomicOperand bool) []*expr {
+// enumerate returns every expression of depth <= 2, simplest first.
+// thorough (quick=false): ordered operands, repetitions included.
+// quick: AND/OR operands unordered (a op b only with a not after b in enumeration order, a op a included)
+// and a depth-2 AND/OR must have at least one atomic operand.
+func enumerate(quick bool) []*expr {
 	var e0 []*expr
 	for i := range atoms {
 		e0 = append(e0, &expr{Op: "atom", Atom: i})
 	}
-	grow := func(lower []*expr, all []*expr, restrict bool) []*expr {
-		// lower: expressions of depth < d-1 ... all: expressions of depth <= d-1; returns depth == d
+	grow := func(lower []*expr, all []*expr) []*expr {
+		// lower: expressions of depth <= d-2; all: expressions of depth <= d-1; returns depth == d
 		isLower := map[*expr]bool{}
 		for _, e := range lower {
 			isLower[e] = true
@@ -126,12 +128,12 @@ func enumerate(atomicOperand bool) []*expr {
 			}
 		}
 		for _, op := range []string{"and", "or"} {
-			for _, a := range all {
-				for _, b := range all {
+			for i, a := range all {
+				for j, b := range all {
 					if isLower[a] && isLower[b] {
 						continue
 					}
-					if restrict && a.Op != "atom" && b.Op != "atom" {
+					if quick && (j < i || (a.Op != "atom" && b.Op != "atom")) {
 						continue
 					}
 					out = append(out, &expr{Op: op, A: a, B: b})
@@ -140,9 +142,9 @@ func enumerate(atomicOperand bool) []*expr {
 		}
 		return out
 	}
-	d1 := grow(nil, e0, false)
+	d1 := grow(nil, e0)
 	e1 := append(append([]*expr{}, e0...), d1...)
-	d2 := grow(e0, e1, atomicOperand)
+	d2 := grow(e0, e1)
 	out := append(append([]*expr{}, e1...), d2...)
 	out = append(out, &expr{Op: "atom", Atom: fullTable})
 	return out
@@ -398,7 +400,7 @@ func must(err error, what string) {
 var scratch string   // removed on exit by the process that created it (the parent)
 var childRoot string // where this process puts its worker directory
 
-const quickBound = "every expression of depth<=1, every NOT of a depth-1 expression, and every depth-2 AND/OR with at least one atomic operand (ordered operands, repetitions)"
+const quickBound = "every expression of depth<=2 in which AND/OR operands are unordered (one representative per commutative pair, a op a included) and a depth-2 AND/OR has at least one atomic operand"
 
 func cleanup() {
 	if scratch != "" {
